@@ -96,6 +96,11 @@ func (c *Chain[I, O]) compile(ctx context.Context, option *graphCompileOptions) 
 // addEndIfNeeded add END edge of the chain/graph.
 // only run once when compiling.
 func (c *Chain[I, O]) addEndIfNeeded() error {
+	if c.hasEnd && c.err != nil {
+		// an Append* rejected after the END edge was added must not be lost
+		return c.err
+	}
+
 	if c.hasEnd {
 		return nil
 	}
@@ -302,6 +307,11 @@ func (c *Chain[I, O]) AppendIndexer(node indexer.Indexer, opts ...GraphAddNodeOp
 //	cb.AddChatTemplate("chat_template_key_02", chatTemplate2)
 //	chain.AppendBranch(cb)
 func (c *Chain[I, O]) AppendBranch(b *ChainBranch) *Chain[I, O] { // nolint: byted_s_too_many_lines_in_func
+	if c.hasEnd {
+		c.reportError(ErrChainCompiled)
+		return c
+	}
+
 	if b == nil {
 		c.reportError(fmt.Errorf("append branch invalid, branch is nil"))
 		return c
@@ -419,6 +429,11 @@ func (c *Chain[I, O]) AppendBranch(b *ChainBranch) *Chain[I, O] { // nolint: byt
 //
 //	The next node in the chain is either an END, or a node which accepts a map[string]any, where keys are `openai` `maas` as specified above.
 func (c *Chain[I, O]) AppendParallel(p *Parallel) *Chain[I, O] {
+	if c.hasEnd {
+		c.reportError(ErrChainCompiled)
+		return c
+	}
+
 	if p == nil {
 		c.reportError(fmt.Errorf("append parallel invalid, parallel is nil"))
 		return c
@@ -524,7 +539,8 @@ func (c *Chain[I, O]) addNode(node *graphNode, options *graphAddNodeOpts) {
 		return
 	}
 
-	if c.gg.compiled {
+	if c.gg.compiled || c.hasEnd {
+		// the END edge has been added by a (possibly unsuccessful) Compile: a node appended now would be bypassed
 		c.reportError(ErrChainCompiled)
 		return
 	}
